@@ -484,6 +484,34 @@ def rule_depth_markers(ctx: Ctx) -> RuleResult:
     return rr
 
 
+def rule_describer_kind_first(ctx: Ctx) -> RuleResult:
+    """What a colour number means is recorded per side in the kind flags (basic / high / true); the depth marker only
+    says which palette a *high* number belongs to.  The describers (_foreground_color, the background getter)
+    therefore decide on the kind first: every `_color_desc_*()` result is returned only where the side's own
+    `*_basic` flag was tested false on the way.  Asking `colors == 88` first describes the basic colour 3 as 'h3' -
+    re-parsed that is a high colour, the rebuilt specification is unequal to the original (seed C18-r8a)."""
+    from ..rules.exc import ExcEngine
+    from ..rules.util import cfg_of
+
+    p = ctx.p
+    rr = RuleResult("ORDER", "C18.16", "the colour describers return a depth-dependent description only after the side's basic-colour flag was tested false", floor=6)
+    c = p.cls(f"{COMMON}.AttrSpec")
+    for side, fi in (("foreground", c.methods.get("_foreground_color")), ("background", c.props["background"].getter if "background" in c.props else None)):
+        if fi is None:
+            raise AnalysisError(f"AttrSpec: describer of the {side} colour not found")
+        cfg = cfg_of(fi)
+        tests = [t for t in cfg.nodes if t.kind == "test" and isinstance(t.ast, ast.Attribute) and t.ast.attr == f"{side}_basic"]
+        rets = [n for n in cfg.nodes if n.kind == "return" and n.ast.value is not None and any(isinstance(x, ast.Call) and isinstance(x.func, ast.Name) and x.func.id.startswith("_color_desc_") for x in ast.walk(n.ast.value))]
+        if not rets:
+            raise AnalysisError(f"{fi.qualname}: no _color_desc_*() return found")
+        for r in rets:
+            ok = any(r not in ExcEngine._reach_without_edge(cfg, t, "F") for t in tests)
+            rr.inst(f"{side}: {norm(r.ast, 50)}", True, {"describer": short(fi), "return": norm(r.ast, 60), "after_basic_flag_false": ok})
+            if not ok:
+                rr.add(finding("ORDER", fi, r.ast, f"`{norm(r.ast, 60)}` can be reached without `self.{side}_basic` having been tested false: a basic colour is described by its palette number ('h3' for brown at 88 colours), which parses back as a high colour - the specification rebuilt from the description is unequal to the original and hashes differently", construct=f"{side}: depth-dependent description before the basic-colour test"))
+    return rr
+
+
 def rule_repr_depths(ctx: Ctx) -> RuleResult:
     """__repr__ promises 'an executable python representation': the constructor's default depth reads a description
     with the 256-colour parser, so a specification whose depth marker selects another parser (88, 2**24) must be
@@ -552,6 +580,7 @@ def run(ctx: Ctx):
         rule_tables(ctx),
         rule_depth_markers(ctx),
         rule_repr_depths(ctx),
+        rule_describer_kind_first(ctx),
         rule_flags_accumulate(ctx),
         truthy.run_truthy(
             p, "C18.5", [f"{COMMON}.AttrSpec.__set_foreground", f"{COMMON}.AttrSpec.__set_background"], r"^_parse_color_|^index$|^_true_to_256$", floor=2,
